@@ -165,6 +165,9 @@ class DataPacketQueue(utils.EventEmitter):
                 f'{packet_count} completed for {connection_handle} '
                 f'but only {connection_state.in_flight} in flight'
             )
+            # Only the packets that were in flight for this connection can have
+            # completed: don't release buffers held by other connections.
+            packet_count = connection_state.in_flight
             connection_state.in_flight = 0
         if connection_state.in_flight == 0:
             connection_state.drained.set()
